@@ -96,6 +96,14 @@ def _body(case, ctx):
             with ctx.repo_call(f"FastDiagPoissonSolver{dim}D.solve", key=f"FastDiagPoissonSolver{dim}D.solve raises"):
                 solver.solve(solution_field=sol, rhs_field=rhs[0])
             comps = [(sol, rhs[0])]
+            # history independence on the same solver object: an unrelated solve in between must not change the answer
+            other = np.full(shape, -3.0e7, dtype=real_t)
+            again = np.full(shape, 1e30, dtype=real_t)
+            with ctx.repo_call(f"FastDiagPoissonSolver{dim}D.solve (repeat)"):
+                solver.solve(solution_field=other, rhs_field=rhs[1])
+                solver.solve(solution_field=again, rhs_field=rhs[0])
+            if again.tobytes() != sol.tobytes():
+                raise Violation(f"{var}: solving the same right-hand side again after another solve on the same object gives a different result")
     if rhs.tobytes() != rhs0.tobytes():
         raise Violation("solve() modified its right-hand side")
     for u, f in comps:
